@@ -187,7 +187,14 @@ StepComplete(e) ==
                             ELSE "none")
                       : f \in DiffFields(g, tfin[a].g)}
                    : a \in DOMAIN tfin}
-       IN /\ alarms' = alarms \cup C1 \cup C2 \cup C3 \cup C4 \cup C5 \cup C6 \cup M1 \cup M2 \cup M3 \cup M4
+           \* C07: a completed resharing keeps what clients pinned (distributed key, genesis time and seed, period, scheme)
+           M6 == If(scen.epoch = 2 /\ Has(scen, "prevDk") /\ Has(e, "dk"),
+                    UNION {If(e.dk # scen.prevDk, {Alarm("IdentityKept", e, "the resharing changed the distributed public key", "PublicKey", "")}),
+                           If(e.seed # scen.prevSeed, {Alarm("IdentityKept", e, "the resharing changed the genesis seed", "GenesisSeed", "")}),
+                           If(e.genesis # scen.genesis, {Alarm("IdentityKept", e, "the resharing changed the genesis time", "GenesisTime", "")}),
+                           If(e.period # scen.period, {Alarm("IdentityKept", e, "the resharing changed the period", "Period", "")}),
+                           If(e.scheme # scen.scheme, {Alarm("IdentityKept", e, "the resharing changed the scheme", "Scheme", "")})})
+       IN /\ alarms' = alarms \cup C1 \cup C2 \cup C3 \cup C4 \cup C5 \cup C6 \cup M1 \cup M2 \cup M3 \cup M4 \cup M6
           /\ tfin' = [x \in (DOMAIN tfin) \cup {n} |-> IF x = n THEN [g |-> g, explained |-> explained] ELSE tfin[x]]
           /\ tst' = [tst EXCEPT ![n] = "Done"]
           /\ twins' = IF hasTwin THEN twins
